@@ -24,8 +24,9 @@ FlagSpace == [scheme : Schemes, stiff : {<<>>, <<"x">>}, delta : {NoneV, "0.25"}
 \* configuration file: "-" = no file; otherwise the fields it sets
 ConfigSpace == {[present |-> FALSE]} \cup
   {[present |-> TRUE, scheme |-> sc, delta |-> dl, pyformat |-> pf, pybackend |-> pb, cformat |-> cf, cto |-> ct, stiff |-> st] :
-      sc \in {NoneS, <<"explicit_euler">>, <<"bogus_scheme">>}, dl \in {NoneV, "1"}, pf \in {NoneV, "none"},
-      pb \in {NoneV, "jax"}, cf \in {NoneV, "none"}, ct \in {NoneV, ".c"}, st \in {NoneS, <<"y">>}}
+      \* set-but-empty / set-to-zero values are values too: an empty scheme list, delta = 0, an empty stiff list
+      sc \in {NoneS, <<"explicit_euler">>, <<"bogus_scheme">>, <<>>}, dl \in {NoneV, "1", "0"}, pf \in {NoneV, "none"},
+      pb \in {NoneV, "jax"}, cf \in {NoneV, "none"}, ct \in {NoneV, ".c"}, st \in {NoneS, <<"y">>, <<>>}}
 
 VARIABLES pc, cmd, flags, config, model, eff, files, exit
 vars == <<pc, cmd, flags, config, model, eff, files, exit>>
